@@ -91,6 +91,9 @@ def isinstance_bool(eng, st, v, cls):
     if isinstance(v, SOptRef):
         inner = SRef(v.t, v.inner)
         return z3.And(v.t != 0, isinstance_bool(eng, st, inner, cls))
+    if isinstance(v, SRef) and v.kind == "ext":
+        # an opaque third-party / file object is not an instance of a builtin value type or of a repository class
+        return z3.BoolVal(False)
     raise _err(f"isinstance({v!r}, {name})")
 
 
